@@ -903,6 +903,68 @@ func runStress(c StressCfg) Case {
 	return cs
 }
 
+// ---------------------------------------------------------------- duplicate responses
+
+// runDupResp: the device initiates, the remote party answers, and the network DUPLICATES the response: copies of
+// the same valid response arrive in one receive batch (or in two back-to-back batches) and are processed by
+// different handshake workers.  Every (receiver index, counter) sent afterwards is recorded; one round per key.
+func runDupResp(rounds, copies int, split bool, staged int, base uint32) Case {
+	cs := Case{Kind: "conc", Gen: "dupresp", Keys: []KeyTrace{}, Cfg: &StressCfg{Peers: 1, BindBatch: 8, TunBatch: 8}}
+	transports := 0
+	for r := 0; r < rounds; r++ {
+		p := cosim.NewPeer("B", "192.0.2.8:6666", "10.0.1.0/24")
+		w, err := cosim.NewWorld(cosim.Config{Up: true, BindBatch: 8, TunBatch: 8}, true, p)
+		if err != nil {
+			panic(err)
+		}
+		var out cosim.Out
+		if staged > 0 {
+			pkts := make([][]byte, staged)
+			for i := range pkts {
+				pkts[i] = stress.Packet([4]byte{10, 9, 9, 9}, [4]byte{10, 0, 1, 77}, 60, 1, uint64(i+1))
+			}
+			out = w.TunIn(pkts...)
+		} else { // nothing but a keepalive is staged: the handshake is started by turning persistent keepalive on
+			_, out = w.Set(fmt.Sprintf("public_key=%s\npersistent_keepalive_interval=3600\n", hex.EncodeToString(p.Pub[:])))
+		}
+		init := cosim.FindInitiation(out.Sent)
+		if init == nil {
+			w.Close()
+			continue
+		}
+		rs, err := ref.ConsumeInitiation(init.Data, p.Priv)
+		if err != nil {
+			w.Close()
+			continue
+		}
+		idx := base + uint32(r)
+		resp, _ := rs.CreateResponse(ref.NewPrivate(), p.Psk, idx)
+		ds := make([]sim.Dgram, copies)
+		for i := range ds {
+			ds[i] = sim.Dgram{From: p.Addr, Data: resp}
+		}
+		if split && copies > 1 {
+			w.Bind.Inject(ds[:copies/2]...)
+			w.Bind.Inject(ds[copies/2:]...)
+		} else {
+			w.Bind.Inject(ds...)
+		}
+		out = w.Take()
+		kt := KeyTrace{Key: idx}
+		for _, s := range out.Sent {
+			if len(s.Data) >= 32 && s.Data[0] == ref.TypeTransport && binary.LittleEndian.Uint32(s.Data[4:8]) == idx {
+				kt.Runs = append(kt.Runs, [2]uint64{binary.LittleEndian.Uint64(s.Data[8:16]), 1})
+				transports++
+			}
+		}
+		cs.Keys = append(cs.Keys, kt)
+		w.Close()
+	}
+	cs.Info = map[string]any{"transports": transports, "keys": len(cs.Keys), "keys_reached_limit": 0, "out_of_order_neighbours": 0,
+		"expires": 0, "hung": 0, "copies": copies, "split": split, "staged": staged, "rounds": rounds}
+	return cs
+}
+
 // isolatedSeq runs one scenario in a child process.  A scenario on which the
 // device does not come to rest (or crashes) is run a second time; if that
 // happens again it is reported as stuck (a livelock in SendStagedPackets, say,
@@ -1137,6 +1199,7 @@ func main() {
 	replayIn := flag.String("replay", "", "JSON file with cases to re-run")
 	corpus := flag.String("corpus", "", "directory of corpus JSON cases to run first")
 	scen := flag.String("scen", "", "run this single scenario (JSON {evs,bb}) in-process and print the case as JSON")
+	dupr := flag.Int("dup-rounds", 7, "rounds per duplicate-response family (6 families per run)")
 	world := flag.String("world", "", "run this single stress configuration (JSON) in-process and print the case as JSON")
 	flag.Parse()
 	if *scen != "" {
@@ -1188,7 +1251,11 @@ func main() {
 			panic(err)
 		}
 		for _, c := range in {
-			if c.Kind == "conc" && c.Cfg != nil {
+			if c.Kind == "conc" && c.Gen == "dupresp" && c.Info != nil {
+				num := func(k string) int { f, _ := c.Info[k].(float64); return int(f) }
+				sp, _ := c.Info["split"].(bool)
+				cases = append(cases, runDupResp(num("rounds"), num("copies"), sp, num("staged"), 0x300000))
+			} else if c.Kind == "conc" && c.Cfg != nil {
 				cases = append(cases, isolatedStress(*c.Cfg))
 			} else {
 				if c.Long {
@@ -1242,6 +1309,21 @@ func main() {
 			runOne(evs, kind, 1+r.Intn(16))
 		}
 		cases = append(cases, (<-longDone)...)
+		// duplicated handshake responses (network duplication): 2..4 copies in one batch or split over two
+		dupRounds := *dupr
+		fam := 0
+		for _, copies := range []int{2, 3, 4} {
+			for _, split := range []bool{false, true} {
+				for _, staged := range []int{1, 4, 0} {
+					if (fam+int(*seed))%3 != 0 { // a third of the 18 families per run, rotating with the seed
+						fam++
+						continue
+					}
+					stressCases = append(stressCases, runDupResp(dupRounds, copies, split, staged, uint32(0x200000+fam*1000)))
+					fam++
+				}
+			}
+		}
 		procs := []int{runtime.NumCPU(), 1, 4, 2, 8, 16, 3}
 		for i := 0; i < *worlds; i++ {
 			c := StressCfg{Seed: *seed*1000 + int64(i), Peers: 1 + i%3, BindBatch: []int{1, 8, 128, 32}[r.Intn(4)], TunBatch: []int{128, 16, 1, 64}[r.Intn(4)],
